@@ -50,10 +50,17 @@ package keeper
 // account instead)
 //@ ghost func vauthSigChecked(account string, sig string) bool = bech32Valid(account) && vauthSigText(sig) && sigRecovers(hexDec(vauthSigHex(sig)), vauthtypes.MessageToSign) && vauthSigMatches(account, sig) && (blen(bech32Bytes(account)) == 20 ==> vauthSigBinds(account, sig))
 
+// vauthProof[layer][address bytes]: the abstract "proven" view the ante handler contracts (app/antedl/cosmoslane 993c)
+// are written over. It is a NAME for the content of the proof store: whoever uses it states the representation relation
+//     forall a :: vauthProof[l][a] == kvHas[kvId(l, store key)][vauthProofKey(a)]
+// (a definitional precondition at its entry), and HasProofExternalOwnedAccount then answers in that vocabulary too.
+//@ ghost var vauthProof map[int]map[bytes]bool
+
 //@ func (k Keeper) HasProofExternalOwnedAccount(ctx sdk.Context, accAddr sdk.AccAddress) bool
 //@   requires len(accAddr) <= 255
 //@   modifies nothing
 //@   ensures[C16.has_is_presence] result == kvHas[kvId(layer(ctx), payload(k.storeKey))][vauthProofKey(bytes(accAddr))]
+//@   ensures[C16.has_is_view] (forall a bytes :: {vauthProof[layer(ctx)][a]} vauthProof[layer(ctx)][a] == kvHas[kvId(layer(ctx), payload(k.storeKey))][vauthProofKey(a)]) ==> result == vauthProof[layer(ctx)][bytes(accAddr)]
 //@   panics never
 
 //@ func (k Keeper) GetProofExternalOwnedAccount(ctx sdk.Context, accAddr sdk.AccAddress) (p *vauthtypes.ProofExternalOwnedAccount)
